@@ -25,14 +25,20 @@
 package main
 
 import (
+	"bufio"
+	"bytes"
 	"encoding/json"
 	"flag"
 	"fmt"
 	"go/ast"
 	"go/build"
+	"go/importer"
 	"go/parser"
 	"go/token"
+	"go/types"
+	"io"
 	"os"
+	"os/exec"
 	"path/filepath"
 	"sort"
 	"strings"
@@ -54,8 +60,13 @@ type fileRewriter struct {
 	edits   []edit
 	seq     int
 	sites   *[]string
+	texts   *[]string
+	curFunc string
 	changed bool
 	tokN    int
+	info    *types.Info
+	mapN    int
+	nMaps   *int
 }
 
 func (r *fileRewriter) off(p token.Pos) int { return r.file.Offset(p) }
@@ -64,6 +75,18 @@ func (r *fileRewriter) site(p token.Pos, kind string) int {
 	pos := r.fset.Position(p)
 	id := len(*r.sites)
 	*r.sites = append(*r.sites, fmt.Sprintf("%s@%s:%d", kind, r.rel, pos.Line))
+	// function name and the first source line of the statement: lets the harness address a scheduling
+	// point by what the code does there instead of by a line number that moves with every edit
+	off := r.file.Offset(p)
+	end := off
+	for end < len(r.src) && r.src[end] != '\n' {
+		end++
+	}
+	txt := strings.TrimSpace(string(r.src[off:end]))
+	if len(txt) > 90 {
+		txt = txt[:90]
+	}
+	*r.texts = append(*r.texts, r.curFunc+": "+txt)
 	return id
 }
 
@@ -236,6 +259,10 @@ func (r *fileRewriter) stmtInner(s ast.Stmt, outerPos token.Pos) {
 		r.stmt(n.Post, false)
 		r.stmtList(n.Body.List)
 	case *ast.RangeStmt:
+		if r.rangeOverMap(n, outerPos) {
+			r.stmtList(n.Body.List)
+			return
+		}
 		r.expr(n.X)
 		r.stmtList(n.Body.List)
 	case *ast.SwitchStmt:
@@ -288,6 +315,103 @@ func (r *fileRewriter) stmtInner(s ast.Stmt, outerPos token.Pos) {
 	}
 }
 
+// rangeOverMap turns `for k, v := range m {` (m a map with ordered keys) into an iteration whose order is
+// chosen by the simulator: Go's per-iteration random map order is a source of nondeterminism the
+// simulator must own, otherwise the same seed does not give the same execution.
+//
+//	__vsMn := m; for _, __vsKn := range __vs.MapOrder(site, __vsMn) { k, v := __vsKn, __vsMn[__vsKn]; ...
+func (r *fileRewriter) rangeOverMap(n *ast.RangeStmt, outerPos token.Pos) bool {
+	if r.info == nil {
+		return false
+	}
+	tv, ok := r.info.Types[n.X]
+	if !ok || tv.Type == nil {
+		return false
+	}
+	mt, ok := tv.Type.Underlying().(*types.Map)
+	if !ok {
+		return false
+	}
+	kb, ok := mt.Key().Underlying().(*types.Basic)
+	if !ok || kb.Info()&(types.IsOrdered) == 0 {
+		return false
+	}
+	name := func(e ast.Expr) string {
+		if e == nil {
+			return ""
+		}
+		if id, ok := e.(*ast.Ident); ok {
+			if id.Name == "_" {
+				return ""
+			}
+			return id.Name
+		}
+		return "?"
+	}
+	k, v := name(n.Key), name(n.Value)
+	if k == "?" || v == "?" {
+		return false // assignment to something that is not a plain identifier
+	}
+	r.mapN++
+	*r.nMaps++
+	mv := fmt.Sprintf("__vsM%d", r.mapN)
+	kv := fmt.Sprintf("__vsK%d", r.mapN)
+	xsrc := string(r.src[r.off(n.X.Pos()):r.off(n.X.End())])
+	id := r.site(n.Pos(), "maprange")
+	r.insPrefix(outerPos, fmt.Sprintf("%s := %s; ", mv, xsrc))
+	r.replace(n.For, n.Body.Lbrace+1, fmt.Sprintf("for _, %s := range __vs.MapOrder(%d, %s) {", kv, id, mv))
+	tok := ":="
+	if n.Tok == token.ASSIGN {
+		tok = "="
+	}
+	var lhs, rhs []string
+	if k != "" {
+		lhs, rhs = append(lhs, k), append(rhs, kv)
+	}
+	if v != "" {
+		lhs, rhs = append(lhs, v), append(rhs, mv+"["+kv+"]")
+	}
+	body := fmt.Sprintf(" if _, __vsOk := %s[%s]; !__vsOk { continue };", mv, kv)
+	if len(lhs) > 0 {
+		body += fmt.Sprintf(" %s %s %s;", strings.Join(lhs, ", "), tok, strings.Join(rhs, ", "))
+	}
+	r.insSuffix(n.Body.Lbrace+1, body)
+	return true
+}
+
+// exportLookup maps import paths to compiler export data files (go list -export).
+func exportLookup(repo, goBin, modfile string) (func(path string) (io.ReadCloser, error), error) {
+	args := []string{"list", "-export", "-deps", "-f", "{{.ImportPath}}\t{{.Export}}"}
+	if modfile != "" {
+		args = append(args, "-modfile="+modfile)
+	}
+	args = append(args, "./...")
+	cmd := exec.Command(goBin, args...)
+	cmd.Dir = repo
+	var stderr bytes.Buffer
+	cmd.Stderr = &stderr
+	out, err := cmd.Output()
+	if err != nil {
+		return nil, fmt.Errorf("go list -export: %v\n%s", err, stderr.String())
+	}
+	m := map[string]string{}
+	sc := bufio.NewScanner(bytes.NewReader(out))
+	sc.Buffer(make([]byte, 1<<20), 1<<24)
+	for sc.Scan() {
+		f := strings.SplitN(sc.Text(), "\t", 2)
+		if len(f) == 2 && f[1] != "" {
+			m[f[0]] = f[1]
+		}
+	}
+	return func(path string) (io.ReadCloser, error) {
+		p, ok := m[path]
+		if !ok {
+			return nil, fmt.Errorf("no export data for %s", path)
+		}
+		return os.Open(p)
+	}, nil
+}
+
 func (r *fileRewriter) deferOrGoCall(c *ast.CallExpr) {
 	// do not wrap the call itself (defer/go need a call expression); visit its parts
 	r.exprChildrenOfCall(c)
@@ -312,6 +436,18 @@ func (r *fileRewriter) expr(e ast.Expr) {
 	case nil:
 		return
 	case *ast.FuncLit:
+		// a literal that is a single return statement is a comparator / predicate handed to library code
+		// (sort, slices.ContainsFunc, ...): how often the library calls it may depend on the library's own
+		// map iteration, so it gets no scheduling point of its own
+		if len(n.Body.List) == 1 {
+			if _, isRet := n.Body.List[0].(*ast.ReturnStmt); isRet {
+				y := r.yield
+				r.yield = false
+				r.stmtList(n.Body.List)
+				r.yield = y
+				return
+			}
+		}
 		r.stmtList(n.Body.List)
 	case *ast.CallExpr:
 		// x.Go(fn)
@@ -405,6 +541,8 @@ func main() {
 	yieldList := flag.String("yield", "", "comma separated module-relative files (or dir/ prefixes) that get statement yields")
 	skipList := flag.String("skip", "watch.go,signals.go,cmd/sleepit/,internal/fsnotifyext/,website/,testdata/,internal/verifsim/,bin/,completion/", "comma separated files/dir prefixes never touched")
 	modpath := flag.String("mod", "github.com/go-task/task/v3", "module path")
+	goBin := flag.String("go", "", "go binary used for `go list -export` (enables map-range rewriting)")
+	modfile := flag.String("modfile", "", "alternative go.mod for go list")
 	flag.Parse()
 	if *out == "" {
 		fmt.Fprintln(os.Stderr, "instrument: -out required")
@@ -429,6 +567,7 @@ func main() {
 	}
 
 	var sites []string
+	var texts []string
 	overlay := map[string]string{}
 	var files []string
 	err := filepath.Walk(*repo, func(p string, info os.FileInfo, err error) error {
@@ -460,66 +599,132 @@ func main() {
 	ctx.GOOS = "linux"
 	ctx.GOARCH = "amd64"
 	nYieldFiles := 0
-	for _, rel := range files {
-		abs := filepath.Join(*repo, rel)
-		ok, err := ctx.MatchFile(filepath.Dir(abs), filepath.Base(abs))
-		if err != nil || !ok {
-			continue
-		}
-		src, err := os.ReadFile(abs)
+	nMaps := 0
+	// group files by package directory, parse, type-check (for map ranges), rewrite
+	var imp types.Importer
+	if *goBin != "" {
+		lookup, err := exportLookup(*repo, *goBin, *modfile)
 		if err != nil {
 			fmt.Fprintln(os.Stderr, "instrument:", err)
 			os.Exit(2)
 		}
+		imp = importer.ForCompiler(token.NewFileSet(), "gc", lookup)
+	}
+	byDir := map[string][]string{}
+	var dirs []string
+	for _, rel := range files {
+		d := filepath.Dir(rel)
+		if _, ok := byDir[d]; !ok {
+			dirs = append(dirs, d)
+		}
+		byDir[d] = append(byDir[d], rel)
+	}
+	sort.Strings(dirs)
+	for _, d := range dirs {
 		fset := token.NewFileSet()
-		f, err := parser.ParseFile(fset, abs, src, parser.ParseComments)
-		if err != nil {
-			fmt.Fprintln(os.Stderr, "instrument: parse:", err)
-			os.Exit(2)
+		type parsed struct {
+			rel string
+			src []byte
+			f   *ast.File
 		}
-		r := &fileRewriter{fset: fset, file: fset.File(f.Pos()), src: src, rel: rel, yield: match(rel, yield), sites: &sites}
-		if r.yield {
-			nYieldFiles++
-		}
-		for _, d := range f.Decls {
-			switch n := d.(type) {
-			case *ast.FuncDecl:
-				if n.Body != nil {
-					r.stmtList(n.Body.List)
+		var ps []parsed
+		// every buildable non-test file of the directory takes part in type checking
+		ents, _ := os.ReadDir(filepath.Join(*repo, d))
+		var all []*ast.File
+		for _, e := range ents {
+			name := e.Name()
+			if e.IsDir() || !strings.HasSuffix(name, ".go") || strings.HasSuffix(name, "_test.go") {
+				continue
+			}
+			abs := filepath.Join(*repo, d, name)
+			ok, err := ctx.MatchFile(filepath.Dir(abs), name)
+			if err != nil || !ok {
+				continue
+			}
+			src, err := os.ReadFile(abs)
+			if err != nil {
+				fmt.Fprintln(os.Stderr, "instrument:", err)
+				os.Exit(2)
+			}
+			f, err := parser.ParseFile(fset, abs, src, parser.ParseComments)
+			if err != nil {
+				fmt.Fprintln(os.Stderr, "instrument: parse:", err)
+				os.Exit(2)
+			}
+			all = append(all, f)
+			rel := filepath.Join(d, name)
+			if d == "." {
+				rel = name
+			}
+			for _, want := range byDir[d] {
+				if want == rel {
+					ps = append(ps, parsed{rel, src, f})
 				}
-			case *ast.GenDecl:
-				for _, sp := range n.Specs {
-					if vs, ok := sp.(*ast.ValueSpec); ok {
-						for _, x := range vs.Values {
-							r.expr(x)
+			}
+		}
+		var info *types.Info
+		if imp != nil && len(all) > 0 {
+			info = &types.Info{Types: map[ast.Expr]types.TypeAndValue{}}
+			conf := types.Config{Importer: imp, Error: func(error) {}}
+			pkgPath := *modpath
+			if d != "." {
+				pkgPath += "/" + filepath.ToSlash(d)
+			}
+			_, _ = conf.Check(pkgPath, fset, all, info)
+		}
+		for _, pf := range ps {
+			rel, src, f := pf.rel, pf.src, pf.f
+			abs := filepath.Join(*repo, rel)
+			r := &fileRewriter{fset: fset, file: fset.File(f.Pos()), src: src, rel: rel, yield: match(rel, yield), sites: &sites, texts: &texts, info: info, nMaps: &nMaps}
+			if r.yield {
+				nYieldFiles++
+			}
+			for _, dcl := range f.Decls {
+				switch n := dcl.(type) {
+				case *ast.FuncDecl:
+					if n.Body != nil {
+						r.curFunc = n.Name.Name
+						r.stmtList(n.Body.List)
+						r.curFunc = ""
+					}
+				case *ast.GenDecl:
+					for _, sp := range n.Specs {
+						if vs, ok := sp.(*ast.ValueSpec); ok {
+							for _, x := range vs.Values {
+								r.expr(x)
+							}
 						}
 					}
 				}
 			}
+			if !r.changed {
+				continue
+			}
+			// add the import right after the package clause (same line, keeps numbering)
+			imps := fmt.Sprintf("; import __vs %q", *modpath+"/internal/verifsim")
+			r.seq++
+			r.edits = append(r.edits, edit{start: r.off(f.Name.End()), end: r.off(f.Name.End()), text: imps, suffix: true, seq: r.seq})
+			res := r.apply()
+			dst := filepath.Join(*out, "src", rel)
+			if err := os.MkdirAll(filepath.Dir(dst), 0o755); err != nil {
+				fmt.Fprintln(os.Stderr, "instrument:", err)
+				os.Exit(2)
+			}
+			if err := os.WriteFile(dst, res, 0o644); err != nil {
+				fmt.Fprintln(os.Stderr, "instrument:", err)
+				os.Exit(2)
+			}
+			overlay[abs] = dst
 		}
-		if !r.changed {
-			continue
-		}
-		// add the import right after the package clause (same line, keeps numbering)
-		imp := fmt.Sprintf("; import __vs %q", *modpath+"/internal/verifsim")
-		r.seq++
-		r.edits = append(r.edits, edit{start: r.off(f.Name.End()), end: r.off(f.Name.End()), text: imp, suffix: true, seq: r.seq})
-		res := r.apply()
-		dst := filepath.Join(*out, "src", rel)
-		if err := os.MkdirAll(filepath.Dir(dst), 0o755); err != nil {
-			fmt.Fprintln(os.Stderr, "instrument:", err)
-			os.Exit(2)
-		}
-		if err := os.WriteFile(dst, res, 0o644); err != nil {
-			fmt.Fprintln(os.Stderr, "instrument:", err)
-			os.Exit(2)
-		}
-		overlay[abs] = dst
 	}
 	// site table
 	var sb strings.Builder
 	sb.WriteString("// Code generated by /verif/tools/instrument. DO NOT EDIT.\n\npackage verifsim\n\nfunc init() {\n\tSiteNames = []string{\n")
 	for _, s := range sites {
+		fmt.Fprintf(&sb, "\t\t%q,\n", s)
+	}
+	sb.WriteString("\t}\n\tSiteTexts = []string{\n")
+	for _, s := range texts {
 		fmt.Fprintf(&sb, "\t\t%q,\n", s)
 	}
 	sb.WriteString("\t}\n}\n")
@@ -536,5 +741,5 @@ func main() {
 		fmt.Fprintln(os.Stderr, "instrument:", err)
 		os.Exit(2)
 	}
-	fmt.Printf("instrument: %d files rewritten (%d with yields), %d sites\n", len(overlay), nYieldFiles, len(sites))
+	fmt.Printf("instrument: %d files rewritten (%d with yields), %d sites, %d map ranges owned by the simulator\n", len(overlay), nYieldFiles, len(sites), nMaps)
 }
